@@ -30,7 +30,7 @@ class DirFamily(Family):
                "bufio.Reader.ReadString, io.Seeker, sort.Slice modelled (records / drop / merge sort on distinct names)",
                "the in-package shim (in-memory fileSystem / fsWatcher) is part of the trusted harness"]
     assumptions = ["events: append -> Write, rotate -> Rename then Create of an empty file, truncate -> Write; a no-op event after each is the barrier"]
-    rule = "0..1000 rotated files at start (audit.log.N, non-matching names, non-numeric suffixes) x sequences of append / partial append / rotate / truncate with lines beyond the 4096-byte buffer; appends whose first read attempt fails with a transient error and is retried; non-trivial = >=2 lines delivered after at least one operation"
+    rule = "0..1000 rotated files at start (audit.log.N, non-matching names, non-numeric suffixes) x sequences of append / partial append / rotate / truncate with lines beyond the 4096-byte buffer; appends whose first read attempt fails with a transient error and is retried; start-up without a live log (created later); non-trivial = >=2 lines delivered after at least one operation"
 
     def harness_line(self, c):
         return "%s %s %s" % (c["id"], ",".join("%s=%s" % (n, hx(b)) for n, b in c["files"]), ";".join(c["ops"]) or "-")
@@ -124,6 +124,14 @@ class DirFamily(Family):
     def cases(self, tier, rng):
         n = 1500 if tier == "quick" else 15000
         cs = [self.one(rng) for _ in range(n)]
+        # the live log does not exist at start (only rotated files, or nothing): it is created later
+        for _ in range(n // 15):
+            c = self.one(rng)
+            c["files"] = [f for f in c["files"] if f[0] != "audit.log"]
+            if not c["files"]:
+                c["files"] = [("audit.log.1", content(rng, 2, partial=False))]
+            c["ops"] = ["rot"] + [o for o in c["ops"] if not o.startswith("early:")]
+            cs.append(c)
         # a write event for the live file that arrives during the start-up read (the consumer is slow), nothing having changed
         for _ in range(n // 5):
             c = self.one(rng)
